@@ -29,7 +29,7 @@ def run(prop, tier):
     def one(j):
         k, f = j
         tf = os.path.join(common.SCRATCH, "c10_traces_%s_%d_%d.txt" % (k, f, os.getpid()))
-        common.run_harness(xk, ["explore", k, f, depth[k], tf], acc, "sock_bfs[ksim] %s IPv%d depth %d" % (k, f, depth[k]), timeout=7000, crash_prop=prop)
+        common.run_harness(xk, ["explore", k, f, depth[k], tf], acc, "sock_bfs[ksim] %s IPv%d depth %d" % (k, f, depth[k]), timeout=7000, crash_prop=prop, fill=1 if f == 6 else 0)
         if acc.viols:
             return          # the model run already decided; a broken library may hang on the real kernel
         # conformance: the same traces on the real kernel; a mismatch is a KSIM bug = engine error (exit 2), never a verdict.
